@@ -88,7 +88,8 @@ def idle_cpus(sample_s=0.25):
                 free.append(c)
         else:
             free.append(c)
-    return free if len(free) >= max(2, len(allowed) // 4) else allowed
+    # most of the machine is busy with something else: do not pin at all, the scheduler balances better than we can
+    return free if len(free) >= max(2, len(allowed) // 4) else []
 
 
 def _worker_init(pid, unit_timeout, cpus=None):
@@ -98,7 +99,6 @@ def _worker_init(pid, unit_timeout, cpus=None):
     # when both ends of the hand-off share a core
     try:
         ident = multiprocessing.current_process()._identity
-        cpus = cpus or sorted(os.sched_getaffinity(0))
         if ident and cpus:
             os.sched_setaffinity(0, {cpus[(ident[0] - 1) % len(cpus)]})
     except (AttributeError, OSError):
@@ -107,6 +107,11 @@ def _worker_init(pid, unit_timeout, cpus=None):
     init = getattr(_engine, 'worker_init', None)
     if init:
         init()
+
+
+def _unit_brief(u):
+    return ' '.join('%s=%s' % (k, os.path.basename(str(v)) if k == 'path' else v) for k, v in sorted(u.items())
+                    if k in ('kind', 'mode', 'first', 'count', 'path', 'family', 'n', 'w', 'gran', 'bound', 'shard', 'indices'))[:160]
 
 
 def _run_unit(unit):
@@ -343,6 +348,7 @@ def _main(args, pid):
         with ProcessPoolExecutor(max_workers=jobs, mp_context=ctx, initializer=_worker_init,
                                  initargs=(pid, unit_timeout, cpus)) as pool:
             pending = {}
+            slowest = []
             it = iter(units)
             exhausted = False
 
@@ -361,10 +367,13 @@ def _main(args, pid):
             last = time.time()
             while pending:
                 done = next(as_completed(list(pending)))
-                pending.pop(done)
+                unit_done = pending.pop(done)
                 try:
                     res = done.result()
                 except BrokenProcessPool:
+                    print('units in flight or queued when the worker died (unit timeout %ds):' % unit_timeout)
+                    for u in [unit_done] + list(pending.values()):
+                        print('   ' + _unit_brief(u))
                     raise
                 except Exception:
                     print('HARNESS-ERROR: exception inside the harness (not a verdict about supp):')
@@ -376,11 +385,16 @@ def _main(args, pid):
                             p.kill()
                     return 2
                 merge(agg, res)
+                slowest.append((round(res.get('wall', 0.0), 1), _unit_brief(unit_done)))
+                slowest.sort(reverse=True)
+                del slowest[5:]
                 submit_more()
                 if time.time() - last > 30:
                     last = time.time()
                     log('progress: %d/%d units, %d runs, %d violations' % (
                         agg['units_done'], len(units), agg['evals'], len(agg['violations'])))
+            log('slowest units (unit timeout %ds): %s' % (unit_timeout, '; '.join('%.1fs %s' % x for x in slowest[:3])))
+            agg['slowest_units'] = slowest[:5]
             remaining = sum(1 for _ in it)
             if remaining:
                 stopped_early = True
